@@ -69,6 +69,7 @@ class Node:
         self.deaf = False            # receives nothing (but may send)
         self.suppressed = []
         self.blocking_send = False   # Stack: True (subject to Bus.send_cost); scripted peers send instantly
+        self.busy_until = 0.0
         self.nested_rx = 0           # must stay 0: a receive thread never re-enters itself
         self.last_rx_t = None
         self.last_tx_t = None
@@ -131,7 +132,11 @@ class Bus:
             node.suppressed.append((w.now, can_id, data))
             return
         cost = self.send_cost if (self.send_cost and not injected and node.blocking_send) else 0.0
-        t_bus = w.now + cost             # the frame is on the bus when the (blocking) send call completes
+        # a blocking driver serialises the send calls of one node (python-can's default backend holds a lock): a call made
+        # while another one is in progress waits for it; the frame is on the bus when its own call completes
+        t_bus = (max(w.now, node.busy_until) + cost) if cost else w.now
+        if cost:
+            node.busy_until = t_bus
         fr = Frame(n, t_bus, node.name, can_id, ext, data, fd)
         fr.injected = injected
         self.log.append(fr)
@@ -162,7 +167,7 @@ class Bus:
             # hold the sender (a controlled thread yields; everything else - receive threads, other stacks, the
             # application - goes on meanwhile); a send made by the scheduler thread itself just takes that long
             if w.cur is not None:
-                w.hold(cost)
+                w.hold(t_bus - w.now)
             elif w.now < t_bus:
                 w.now = t_bus
         inj = self.inject.get(n)
